@@ -11,6 +11,8 @@ THEOREMS = ["QExPy.C07_poly_model", "QExPy.C07_lin", "QExPy.C07_quad", "QExPy.C0
             "QExPy.C07_chi2_nonneg", "QExPy.C07_perr_sq", "QExPy.C07_corr_registered",
             "QExPy.C07_corr_diag", "QExPy.C07_corr_symm", "QExPy.C07_corr_bounded", "QExPy.C07_cov_roundtrip",
             "QExPy.C07_band", "QExPy.C07_band_all", "QExPy.C07_band_poly", "QExPy.C07_band_preset", "QExPy.C07_reversed_fold_witness", "QExPy.C07_grad_exact",
+            "QExPy.C07_session_step_invisible", "QExPy.C07_session_invisible",
+            "QExPy.C07_session_reset_correlations_forgets",
             "QExPy.C01_quadratic_form", "QExPy.C03_diff_correct"]
 RULE = ("the C06 fits on the whole data set (every pre-set model, polynomial degrees 1-5, three user "
         "models, every sigma pattern incl. sigma_y with exact zeros, every data-passing form, 60 % "
@@ -24,7 +26,12 @@ RULE = ("the C06 fits on the whole data set (every pre-set model, polynomial deg
         "int, Fraction, numpy integers / float32 where exact), as a list (of floats, of typed "
         "numbers) and as an array, BEFORE AND AFTER a history (a returned value switched to "
         "Monte Carlo and read, the result drawn on a plot and saved, the global method switched, "
-        "re-reads) after which chi-squared, residuals, parameters, correlations and the printed "
+        "re-reads; SESSION-LEVEL REQUESTS that do not name the result: print / unit / "
+        "significant-figure / plot / sample-size settings changed by function or attribute, the "
+        "result read or not, and the defaults restored by the setters, get_settings().reset() or "
+        "reset_default_configuration(); either reset on its own; clear_unit_definitions / "
+        "define_unit; another fit, the same fit again, other measurements with a covariance of "
+        "their own; rejected requests) after which chi-squared, residuals, parameters, correlations and the printed "
         "result must also read as before; fit_function value/uncertainty, residuals (value "
         "and uncertainty), chi-squared, registered correlations and the matrix parsed from "
         "str(result) (3 decimals and 17 digits) vs the Lean FitResult model run on the implementation's own parameters and "
@@ -47,6 +54,10 @@ LEVEL_TEXT = ("Lean 4 theorems over the fit functions regenerated from the Pytho
 LEVEL_NOTE = "rounding is validated, not proved"
 TECHNIQUE = ("Lean 4 machine-checked proof over generated fit functions + differential run of the "
              "compiled Lean model against the real library")
+
+
+SESSION_TURN = tuple("config:" + b for b in ("reset_default_configuration", "settings.reset", "setters")) \
+    + tuple(dict.fromkeys(G.SESSION_STEPS))
 
 
 def gen_cases(ctx, n):
@@ -90,6 +101,8 @@ def gen_cases(ctx, n):
     cases += C6.typed_cases(ctx.rng, want_range=False)[::2]
     cases += C6.repeated_cases(ctx.rng)
     cases += C6.signed_cases(ctx.rng, want_range=False)
+    # user models as every kind of callable under every kind of name (C06's class (6), a third)
+    cases += C6.callable_cases(ctx.rng, want_range=False, every=3)
     n0 = len(G.corpus(ID))
     # HISTORIES between two rounds of evaluating fit_function (every model family and every form
     # gets one with the result drawn on a plot; the others get one without a plot half of the time)
@@ -97,7 +110,10 @@ def gen_cases(ctx, n):
     for c in cases[n0:]:
         if c.get("scale") and max(c["scale"]) / min(c["scale"]) > 1e12:
             continue
-        c["hist"] = G.gen_hist(ctx.rng, plot=(k % 2 == 0))
+        # ... and every case gets, in turn, one of the session-level requests that do not name the
+        # result (fitgen SESSION NOTES): settings changed and put back by each route, configuration
+        # resets, unit definitions, other fits and measurements, rejected requests
+        c["hist"] = G.gen_hist(ctx.rng, plot=(k % 2 == 0), session=SESSION_TURN[k % len(SESSION_TURN)])
         c["hist_first"] = k % 3 == 0
         k += 1
     for form in ("plot.fit", "plot.fit", "plot.fit", "xyds", "lists", "marrays"):
